@@ -23,7 +23,8 @@ RULE = (
     "http(s) URI prefixes, delimiter ':' or '/', served by get_flask_app and get_fastapi_app; 30 requests "
     "GET /<prefix><delimiter><identifier> through the in-process Flask test client and Starlette TestClient (no sockets) "
     "with canonical, synonym and unknown prefixes and identifiers of 1-4 non-empty unreserved segments (never '.' / '..') "
-    "joined by '/', optionally containing the delimiter. History recorded at the client boundary (path, status, "
+    "joined by '/', optionally containing the delimiter; in every second case the converter grows while the apps are "
+    "serving (a new record, a synonym merged into an existing one) and earlier paths are requested again. History recorded at the client boundary (path, status, "
     "Location) together with the expand_pair call the route handler issued (from the probe trace, showing how the "
     "framework split the path). Oracle: model expansion of the CURIE split at the first delimiter: known => 302 with "
     "that Location, unknown => 422; both frameworks must give the same status and Location. key = delimiter x prefix "
@@ -73,13 +74,33 @@ def run_case(ctx, g, rng):
     fa = TestClient(get_fastapi_app(conv))
     known = [p for r in recs for p in spec.all_p(r)]
     w0 = {"records": [spec.rec_dict(r) for r in recs], "delimiter": d}
-    for _ in range(30):
-        p = rng.choice(known + ["nope", "NOPE", known[0].swapcase()])
-        segs = [segment(rng, d) for _ in range(rng.choice([1, 1, 2, 3, 4]))]
-        ident = "/".join(segs)
-        if d == ":" and rng.random() < 0.4:
-            i = rng.randint(0, len(ident))
-            ident = ident[:i] + ":" + ident[i:]
+    late_prefix, late_syn = names.pop(), names.pop()
+    asked = []
+    for step in range(30):
+        if step == 18 and g % 2 == 0:
+            # the converter the apps were built from grows while they are serving: a new record, and a synonym
+            # merged into an existing one; the same paths are then requested again
+            call(conv.add_prefix, late_prefix, ups.pop())
+            call(conv.add_prefix, recs[0].prefix, recs[0].uri_prefix, [late_syn], merge=True)
+            recs = list(spec.snapshot(conv))
+            sp = spec.SpecConverter(recs, d)
+            known = [p for r in recs for p in spec.all_p(r)]
+            w0 = {"records": [spec.rec_dict(r) for r in recs], "delimiter": d, "registered_while_serving": [late_prefix, late_syn]}
+            S.counters["wl:converters-grown-while-serving"] += 1
+        if step >= 18 and g % 2 == 0 and asked and rng.random() < 0.6:
+            p, segs, ident = rng.choice(asked)
+        else:
+            p = rng.choice(known + ["nope", "NOPE", known[0].swapcase(), late_prefix, late_syn])
+            segs = None
+        if segs is not None:
+            pass
+        else:
+            segs = [segment(rng, d) for _ in range(rng.choice([1, 1, 2, 3, 4]))]
+            ident = "/".join(segs)
+            if d == ":" and rng.random() < 0.4:
+                i = rng.randint(0, len(ident))
+                ident = ident[:i] + ":" + ident[i:]
+            asked.append((p, segs, ident))
         path = "/" + p + d + ident
         curie = p + d + ident
         want_loc = sp.expand(curie)
